@@ -1,15 +1,20 @@
 """Stream `scriptxml`: the fully refined edit script of the REAL engine for a pair of XML / HTML element trees
 (`graphtage.xml.build_tree`, the builder behind both the XML and the HTML file type), compared EXACTLY with the
 Lean model `GtModel.Xml.xmlEdits` (Model/XmlEdits.lean, layer L2x on top of L2), plus independent monitors for
-C01 (accounting), C02 (zero cost iff equal) and C03 (cost = sum of parts, three views).
+C01 (accounting), C02 (zero cost iff equal), C03 (cost = sum of parts, three views) and C10 (the dictionary strategy
+reaches the attribute mappings; with list edits disabled the children of every element are paired by position).
 
 Kinds of cases
   xml    {"f": doc, "t": doc, "opts": {...}, "via": None | "xml" | "html"}
          doc = {"tag": str, "attrib": {name: value}, "text": str | None, "children": [doc], "tail": str | None}
          ("tail" optional: ElementTree's text AFTER the element's end tag; only for non-root elements)
          via None: the ElementTree elements are constructed directly (any code point may occur);
-         via "xml"/"html": the document is serialised, parsed back by ElementTree and handed to the file type's
-         `build_tree` (the parsed documents are what the model is given: parsing is outside graphtage).
+         via "xml"/"html": the document is serialised to a FILE ("ser": "auto" = ElementTree's ns0: prefixes,
+         "default" = the root's namespace as default namespace, "prefixed" = registered prefixes pa: / pb:) and the
+         path is handed to the registered file type's `build_tree`; the documents ElementTree parses back from the
+         files are what the model is given (parsing is outside graphtage).
+         Tags and attribute names may carry a namespace in ElementTree's form `{urn:a}item`, `{urn:a}k`; for graphtage
+         (and the model) they are opaque strings, so two documents that differ only in a namespace DIFFER.
   space  {"lo": a, "hi": b, "strs": [...]}: `str.isspace()` on every code point of [a, b) and `str.strip()` on the
          strings, against the model's white-space table (`XMLElement.__eq__` strips the text).
 
@@ -23,7 +28,13 @@ from harness.streams import script as S
 
 NAME = "scriptxml"
 
-OPT_SETS = S.OPT_SETS
+# the six option sets of stream `script` (default, -k, match, -l, -ll, -k -l) plus -l -ll and -k -ll: eight
+OPT_SETS = S.OPT_SETS + [
+    {"allow_list_edits": False, "allow_list_edits_when_same_length": False},
+    {"allow_key_edits": False, "auto_match_keys": False, "allow_list_edits_when_same_length": False},
+]
+LIST_OFF = [o for o in OPT_SETS if not o.get("allow_list_edits", True) or not o.get("allow_list_edits_when_same_length", True)]
+VIAS = [None, "xml", "html"]
 
 TAGS = ["a", "b", "item", "row", "x", "ab"]
 TEXTS = [None, None, "", "t", "text", "hello", " hello ", "hellp", "hello\n", "\n  ", " ", "1", "2", " t", "t ",
@@ -31,14 +42,19 @@ TEXTS = [None, None, "", "t", "text", "hello", " hello ", "hellp", "hello\n", "\
 ATTRS = ["k", "id", "n", "cls", "kk", "i"]
 VALS = ["1", "2", "a", "b", "ab", "abc", "", "x y", "10", " 1"]
 TAILS = ["\n", "\n  ", " tail", "three", " three ", "x"]
+# namespaced names in ElementTree's form; used by the documents generated with ns=True
+NS_TAGS = ["{urn:a}item", "{urn:b}item", "{urn:a}row", "{urn:b}x", "item", "row"]
+NS_ATTRS = ["{urn:a}k", "{urn:b}k", "{urn:a}id", "k", "id", "n"]
+URIS = ["urn:a", "urn:b"]
 WEIRD = ["\x1ct", "t\x1f", "\x85t", " t　", "​t", " ", "﻿t", "t᠎"]   # only via None
 
 
-def gen_xml(r, d=0, maxd=3, weird=False):
+def gen_xml(r, d=0, maxd=3, weird=False, ns=False):
     n = 0 if d >= maxd else r.choice([0, 0, 1, 1, 2, 2, 3, 4])
     texts = TEXTS + (WEIRD if weird else [])
-    x = {"tag": r.choice(TAGS), "attrib": {a: r.choice(VALS) for a in r.sample(ATTRS, r.choice([0, 0, 1, 1, 2, 3]))},
-         "text": r.choice(texts), "children": [gen_xml(r, d + 1, maxd, weird) for _ in range(n)]}
+    tags, attrs = (NS_TAGS, NS_ATTRS) if ns else (TAGS, ATTRS)
+    x = {"tag": r.choice(tags), "attrib": {a: r.choice(VALS) for a in r.sample(attrs, r.choice([0, 0, 1, 1, 2, 3]))},
+         "text": r.choice(texts), "children": [gen_xml(r, d + 1, maxd, weird, ns) for _ in range(n)]}
     if d > 0 and r.random() < 0.3:
         x["tail"] = r.choice(TAILS)
     return x
@@ -52,9 +68,58 @@ def _ws_variant(r, s):
     return r.choice(["", " ", "\n", "  "]) + core + r.choice(["", " ", "\n"])
 
 
-def mut_xml(r, x, d=0, weird=False):
+def split_ns(name):
+    """('urn:a', 'item') for '{urn:a}item', (None, 'item') for 'item'"""
+    if name.startswith("{") and "}" in name:
+        uri, local = name[1:].split("}", 1)
+        return uri, local
+    return None, name
+
+
+def ns_variants(name):
+    """the same local name in every other namespace (and in none)"""
+    uri, local = split_ns(name)
+    return [local if u is None else "{" + u + "}" + local for u in URIS + [None] if u != uri]
+
+
+def other_ns(r, name):
+    return r.choice(ns_variants(name))
+
+
+def has_ns(x):
+    return x["tag"].startswith("{") or any(a.startswith("{") for a in x["attrib"]) or any(has_ns(c) for c in x["children"])
+
+
+def ns_only(r, x):
+    """a copy of x in which exactly ONE tag or ONE attribute name changed its namespace — nothing else differs"""
+    nodes = []
+
+    def walk(n, path):
+        nodes.append(path)
+        for i, c in enumerate(n["children"]):
+            walk(c, path + [i])
+    walk(x, [])
+    target = r.choice(nodes)
+
+    def copy(n, path):
+        y = {"tag": n["tag"], "attrib": dict(n["attrib"]), "text": n["text"],
+             "children": [copy(c, path + [i]) for i, c in enumerate(n["children"])]}
+        if n.get("tail") is not None:
+            y["tail"] = n["tail"]
+        if path == target:
+            renames = [(a, na) for a in y["attrib"] for na in ns_variants(a) if na not in y["attrib"]]
+            if renames and r.random() < 0.4:
+                a, na = r.choice(renames)
+                y["attrib"] = {(na if k == a else k): v for k, v in y["attrib"].items()}     # same position
+            else:
+                y["tag"] = other_ns(r, y["tag"])
+        return y
+    return copy(x, [])
+
+
+def mut_xml(r, x, d=0, weird=False, ns=False):
     y = {"tag": x["tag"], "attrib": dict(x["attrib"]), "text": x["text"],
-         "children": [mut_xml(r, c, d + 1, weird) if r.random() < 0.4 else c for c in x["children"]]}
+         "children": [mut_xml(r, c, d + 1, weird, ns) if r.random() < 0.4 else c for c in x["children"]]}
     if x.get("tail") is not None:
         y["tail"] = x["tail"]
     if d > 0 and r.random() < 0.12:
@@ -81,10 +146,21 @@ def mut_xml(r, x, d=0, weird=False):
     elif k < 0.72 and y["children"]:
         y["children"].pop(r.randrange(len(y["children"])))
     elif k < 0.84 and d < 3:
-        y["children"].insert(r.randint(0, len(y["children"])), gen_xml(r, d + 1, 3, weird))
-    elif k < 0.88 and len(y["children"]) >= 2:
+        y["children"].insert(r.randint(0, len(y["children"])), gen_xml(r, d + 1, 3, weird, ns))
+    elif k < 0.90 and len(y["children"]) >= 2:
         i, j = r.sample(range(len(y["children"])), 2)
         y["children"][i], y["children"][j] = y["children"][j], y["children"][i]
+    elif k < 0.93 and len(y["children"]) >= 2:
+        y["children"] = y["children"][1:] + y["children"][:1]      # same length, every child shifted
+    elif k >= 0.93 and ns:
+        # ONLY the namespace of this element's tag or of one attribute name changes
+        if y["attrib"] and r.random() < 0.4:
+            a = r.choice(list(y["attrib"]))
+            na = other_ns(r, a)
+            if na not in y["attrib"]:
+                y["attrib"] = {(na if kk == a else kk): v for kk, v in y["attrib"].items()}
+        else:
+            y["tag"] = other_ns(r, y["tag"])
     return y
 
 
@@ -114,26 +190,64 @@ FORCED = [
      el("r", {}, None, [el("i", {"id": "1"}, "a"), el("i", {"id": "3"}, "c")])),
     (el("r", {}, "t", [el("i", {"id": "1", "n": "x"}, None, [el("j", {"k": "1"}), el("j", {"k": "2"})])]),
      el("r", {}, None, [el("i", {"id": "1", "m": "x"}, None, [el("j", {"k": "2"}), el("j", {"kk": "1"})]), el("i")])),
+    # the list options: same number of children shifted / swapped (default, -l and -ll give different scripts), a
+    # surplus tail, and the same one level down
+    (el("r", {}, None, [el("a"), el("b"), el("c")]), el("r", {}, None, [el("b"), el("c"), el("a")])),
+    (el("r", {}, None, [el("a"), el("b"), el("c")]), el("r", {}, None, [el("b"), el("c")])),
+    (el("r", {}, None, [el("b"), el("c")]), el("r", {}, None, [el("a"), el("b"), el("c")])),
+    (el("r", {}, None, [el("i", {"id": "1"}, "a"), el("i", {"id": "2"}, "b"), el("i", {"id": "3"}, "c")]),
+     el("r", {}, None, [el("i", {"id": "0"}, "z"), el("i", {"id": "1"}, "a"), el("i", {"id": "2"}, "b")])),
+    (el("r", {}, None, [el("g", {}, None, [el("a"), el("b"), el("c")]), el("h")]),
+     el("r", {}, None, [el("g", {}, None, [el("c"), el("a"), el("b")]), el("h", {}, "x")])),
+    (el("r", {}, None, [el("g", {}, None, [el("a"), el("b"), el("c")]), el("h")]),
+     el("r", {}, None, [el("h"), el("g", {}, None, [el("b"), el("c")]), el("x")])),
+    # namespaces: documents that differ ONLY in the namespace of a tag or of an attribute name
+    (el("{urn:a}item"), el("{urn:b}item")), (el("{urn:a}item"), el("item")), (el("item", text="x"), el("{urn:b}item", text="x")),
+    (el("r", {"{urn:a}k": "1"}), el("r", {"{urn:b}k": "1"})), (el("r", {"{urn:a}k": "1", "n": "2"}), el("r", {"k": "1", "n": "2"})),
+    (el("{urn:a}r", {"{urn:a}k": "1"}, None, [el("{urn:a}item", {"id": "1"}, "x"), el("{urn:a}item", {"id": "2"}, "y")]),
+     el("{urn:a}r", {"{urn:a}k": "1"}, None, [el("{urn:a}item", {"id": "1"}, "x"), el("{urn:b}item", {"id": "2"}, "y")])),
+    (el("{urn:a}r", {}, None, [el("{urn:a}item", {"{urn:a}id": "1"}, "x")]), el("{urn:a}r", {}, None, [el("{urn:a}item", {"id": "1"}, "x")])),
+    (el("{urn:a}r", {}, None, [el("{urn:a}item"), el("{urn:a}row")]), el("{urn:a}r", {}, None, [el("{urn:a}item"), el("{urn:a}row")])),
 ]
+SERS = ["auto", "default", "prefixed"]
 
 
 def gen(rng, tier):
     n = 120 if tier == "quick" else 2500
     cases = []
-    for f, t in FORCED:
-        for o in OPT_SETS:
-            cases.append({"kind": "xml", "f": f, "t": t, "opts": o})
+    for p, (f, t) in enumerate(FORCED):
+        for j, o in enumerate(OPT_SETS):
+            # every forced pair under all eight option sets; the path (direct ElementTree elements / the registered
+            # XML file type / the registered HTML file type) rotates with the pair, so every (option set, path)
+            # combination occurs on a third of the pairs
+            c = {"kind": "xml", "f": f, "t": t, "opts": o}
+            if VIAS[(p + j) % 3]:
+                c["via"] = VIAS[(p + j) % 3]
+                if has_ns(f) or has_ns(t):
+                    c["ser"] = SERS[(p + j // 3) % 3]
+            cases.append(c)
     for i in range(n):
         weird = rng.random() < 0.15
+        ns = not weird and rng.random() < 0.25        # a quarter of the pairs use namespaced tags / attribute names
         maxd = rng.choice([1, 2, 2, 3])
-        a = gen_xml(rng, 0, maxd, weird)
-        b = mut_xml(rng, a, 0, weird) if rng.random() < 0.85 else gen_xml(rng, 0, maxd, weird)
+        a = gen_xml(rng, 0, maxd, weird, ns)
+        b = mut_xml(rng, a, 0, weird, ns) if rng.random() < 0.85 else gen_xml(rng, 0, maxd, weird, ns)
         for _ in range(3):          # few equal pairs here (they have their own generator below); several edits per pair
             if xml_eq(a, b) or rng.random() < 0.35:
-                b = mut_xml(rng, b, 0, weird)
-        c = {"kind": "xml", "f": a, "t": b, "opts": rng.choice(OPT_SETS)}
-        if not weird and rng.random() < 0.3:
+                b = mut_xml(rng, b, 0, weird, ns)
+        # half of the pairs run with one of the list options off
+        c = {"kind": "xml", "f": a, "t": b, "opts": rng.choice(LIST_OFF) if rng.random() < 0.4 else rng.choice(OPT_SETS)}
+        if not weird and rng.random() < 0.4:
             c["via"] = rng.choice(["xml", "html"])
+            if ns:
+                c["ser"] = rng.choice(SERS)
+        cases.append(c)
+    for i in range(n // 5):     # documents that differ in NOTHING but the namespace of one tag or one attribute name
+        a = gen_xml(rng, 0, rng.choice([1, 2, 2, 3]), False, rng.random() < 0.8)
+        c = {"kind": "xml", "f": a, "t": ns_only(rng, a), "opts": rng.choice(OPT_SETS)}
+        if i % 3:
+            c["via"] = ("xml", "html")[i % 2]
+            c["ser"] = SERS[(i // 3) % 3]
         cases.append(c)
     for _ in range(n // 6):     # equal up to attribute order and surrounding white space
         a = gen_xml(rng, 0, 2)
@@ -239,6 +353,49 @@ def dump(e, top=True):
     return ["other:" + type(e).__name__, fi, ti, S._ub(e), []]
 
 
+def _same_et(a, b):
+    return (a.tag == b.tag and list(a.attrib.items()) == list(b.attrib.items()) and (a.text or None) == (b.text or None)
+            and (a.tail or None) == (b.tail or None) and len(a) == len(b) and all(_same_et(x, y) for x, y in zip(a, b)))
+
+
+def _serialise(x, form="auto"):
+    """the document as XML text: "auto" = ElementTree's generated ns0: prefixes, "default" = the root tag's namespace
+    declared as the default namespace, "prefixed" = registered prefixes pa: / pb:.  A form ElementTree cannot produce
+    for this document (unqualified names under a default namespace; an attribute that would collide) falls back to "auto"."""
+    import xml.etree.ElementTree as ET
+    e = _to_et(x)
+    if form == "default" and x["tag"].startswith("{"):
+        try:
+            s = ET.tostring(e, encoding="unicode", default_namespace=split_ns(x["tag"])[0])
+            if _same_et(ET.fromstring(s), e):     # (ElementTree writes a qualified attribute of the default namespace unprefixed)
+                return s
+        except Exception:
+            pass
+    if form == "prefixed":
+        ET.register_namespace("pa", "urn:a")
+        ET.register_namespace("pb", "urn:b")
+        try:
+            return ET.tostring(e, encoding="unicode")
+        finally:
+            for u in ("urn:a", "urn:b"):      # keep the worker's global prefix table as it was
+                getattr(ET, "_namespace_map", {}).pop(u, None)
+    return ET.tostring(e, encoding="unicode")
+
+
+def _xml_file(x, form):
+    import os, tempfile
+    fd, path = tempfile.mkstemp(suffix=".xml", dir=S._tmpdir())
+    with os.fdopen(fd, "wb") as fh:
+        fh.write(_serialise(x, form).encode("utf-8"))
+    return path
+
+
+def _elements(e):
+    yield e
+    for c in e._children:
+        yield from _elements(c)
+
+
 def impl(case):
     if case["kind"] == "space":
         return {"spaces": [c for c in range(case["lo"], case["hi"]) if chr(c).isspace()],
@@ -250,14 +407,27 @@ def impl(case):
     o = graphtage.BuildOptions(**case.get("opts", {}))
     via = case.get("via")
     docs = None
-    if via:
-        from graphtage.graphtage import FILETYPES_BY_TYPENAME
-        ft = FILETYPES_BY_TYPENAME[via]          # the registered XML / HTML file type instances
-        trees = [ET.ElementTree(ET.fromstring(ET.tostring(_to_et(case[w]), encoding="unicode"))) for w in ("f", "t")]
-        docs = [_from_et(t.getroot()) for t in trees]
-        build = lambda i: ft.build_tree(ET.ElementTree(ET.fromstring(ET.tostring(_to_et(case["ft"[i]]), encoding="unicode"))), o)
-    else:
-        build = lambda i: gx.build_tree(_to_et(case["ft"[i]]), o)
+    paths = []
+    try:
+        if via:
+            from graphtage.graphtage import FILETYPES_BY_TYPENAME
+            ft = FILETYPES_BY_TYPENAME[via]          # the registered XML / HTML file type instances
+            paths = [_xml_file(case[w], case.get("ser", "auto")) for w in ("f", "t")]
+            docs = [_from_et(ET.parse(p).getroot()) for p in paths]
+            build = lambda i: ft.build_tree(paths[i], o)
+        else:
+            build = lambda i: gx.build_tree(_to_et(case["ft"[i]]), o)
+        return _impl_xml(case, build, docs)
+    finally:
+        import os
+        for p in paths:
+            try:
+                os.unlink(p)
+            except OSError:
+                pass
+
+
+def _impl_xml(case, build, docs):
     del S._RECORD[:]
     A, B = build(0), build(1)
     e = A.edits(B)
@@ -276,7 +446,10 @@ def impl(case):
     obs = {"script": script, "oracle": oracle, "root": root, "edited_cost": edited, "flat_sum": flat,
            "eq": bool(A4 == B4), "eq_rev": bool(B4 == A4), "sizes": [int(A.total_size), int(B.total_size)],
            "classes": [type(A.attrib).__name__, type(A._children).__name__,
-                       bool(A._children.allow_list_edits), bool(A._children.allow_list_edits_when_same_length)]}
+                       bool(A._children.allow_list_edits), bool(A._children.allow_list_edits_when_same_length)],
+           # the list flags of EVERY element's child list, both trees, as a set
+           "list_flags": sorted({(bool(n._children.allow_list_edits), bool(n._children.allow_list_edits_when_same_length))
+                                 for T in (A, B) for n in _elements(T)})}
     if docs is not None:
         obs["docs"] = docs
     return obs
@@ -428,6 +601,17 @@ def _walk(node, f, t, opts, hits, path=""):
         hits.append(("C03", "reported-ne-sum:" + ce[0] + ":xml", f"{ce[0]} edit over the children at {path or '/'} reports {ce[3]}, sub-edits sum to {sum(s[3] for s in ce[4] if isinstance(s[3], int))}"))
     if not _seq_accounts(ce[0], ce[4], len(fl), len(tl), path, hits):
         return
+    # ---- C10: list edits disabled (always, or for equally many children): the children are paired strictly by
+    # position and only a surplus tail is removed or inserted
+    ale = opts.get("allow_list_edits", True)
+    alesl = opts.get("allow_list_edits_when_same_length", True)
+    if (not ale) or (len(fl) == len(tl) and not alesl):
+        n = min(len(fl), len(tl))
+        want = [("pair", i, i) for i in range(n)] + [("remove", i, None) for i in range(n, len(fl))] \
+            + [("insert", i, None) for i in range(n, len(tl))]
+        got = [(s[0] if s[0] in ("remove", "insert") else "pair", s[1], s[2]) for s in ce[4]]
+        if got != want:
+            hits.append(("C10", "list-edits-off-not-positional:xml", f"list edits disabled ({'always' if not ale else 'for equal lengths'}) but the {ce[0]} edit over the {len(fl)} / {len(tl)} children at {path or '/'} is not positional: {got}"))
     for s in ce[4]:
         if s[0] in ("remove", "insert"):
             continue
@@ -438,11 +622,11 @@ def _walk(node, f, t, opts, hits, path=""):
 
 def monitor(case, obs):
     if not isinstance(obs, dict):
-        return [{"prop": p, "key": "bad-observation", "what": repr(obs)[:200]} for p in ("C01", "C02", "C03")]
+        return [{"prop": p, "key": "bad-observation", "what": repr(obs)[:200]} for p in ("C01", "C02", "C03", "C10")]
     if obs.get("error"):
         what = f"{obs.get('exc', obs['error'])}: {obs.get('msg', '')}"
         key = "internal-error:" + str(obs.get("exc", obs["error"]))
-        return [{"prop": p, "key": key, "what": what} for p in ("C01", "C02", "C03", "C04", "C05")]
+        return [{"prop": p, "key": key, "what": what} for p in ("C01", "C02", "C03", "C04", "C05", "C10")]
     if case["kind"] == "space":
         if not obs.get("strip_is_isspace"):
             return [{"prop": "C02", "key": "strip-vs-isspace", "what": "str.strip() and str.isspace() disagree on a code point"}]
@@ -466,7 +650,7 @@ def monitor(case, obs):
             raw.append(("C02", "differ-but-zero-annotated:xml", "elements differ but edited_cost() is 0"))
         if de != obs["eq"] or obs["eq"] != obs["eq_rev"]:
             raw.append(("C02", "node-eq-vs-data-eq:xml", f"tree equality is {obs['eq']} / reversed {obs['eq_rev']} but the elements are {'equal' if de else 'different'}"))
-    # C10: the dictionary strategy reaches the attribute mappings, the list options never reach the children
+    # C10: the dictionary strategy reaches the attribute mappings (the list options: behavioural check in `_walk`)
     cl = obs.get("classes")
     if cl:
         want = "DictNode" if opts.get("allow_key_edits", True) else "FixedKeyDictNode"
@@ -497,7 +681,10 @@ def classify(case, obs):
     if not o.get("allow_list_edits_when_same_length", True):
         tag += "-ll"
     comp = "+".join(sorted(k for k in kinds if k in ("ed", "fixed", "ms", "fk", "str", "insert", "remove"))) or "flat"
-    return f"xml{'/' + case['via'] if case.get('via') else ''}|{tag}|{obs['script'][0]}|depth={depth[0]}|{comp}|oracle={min(len(obs.get('oracle', [])), 3)}"
+    nsm = ""
+    if has_ns(case["f"]) or has_ns(case["t"]):
+        nsm = "+ns" + (":" + case["ser"] if case.get("via") and case.get("ser") else "")
+    return f"xml{'/' + case['via'] if case.get('via') else ''}{nsm}|{tag}|{obs['script'][0]}|depth={depth[0]}|{comp}|oracle={min(len(obs.get('oracle', [])), 3)}"
 
 
 def nontrivial(case, obs):
